@@ -15,6 +15,12 @@ use tonic::{Code, Streaming};
 
 const SERVICES: [&str; 3] = ["", "a", "b"];
 
+/// a service type whose `NamedService::NAME` is SERVICES[1]
+struct SvcA;
+impl tonic::server::NamedService for SvcA {
+    const NAME: &'static str = "a";
+}
+
 fn st_name(i: i32) -> &'static str {
     match i {
         0 => "UNKNOWN",
@@ -110,11 +116,22 @@ pub fn run(sim: &Sim, _idx: u64) {
         match kind {
             0 => {
                 let st = sim.pick(&[ServingStatus::Unknown, ServingStatus::Serving, ServingStatus::NotServing]);
-                desc.push(format!("set({:?},{})", SERVICES[svc], st_name(wire(st))));
+                // the typed entry points (`set_serving::<S>()` / `set_not_serving::<S>()`) name the
+                // service through `NamedService::NAME`
+                let typed = svc == 1 && st != ServingStatus::Unknown && sim.chance(1, 2);
+                desc.push(format!("set{}({:?},{})", if typed { "_typed" } else { "" }, SERVICES[svc], st_name(wire(st))));
                 let r = reporter.clone();
                 let w = world.clone();
                 exec.spawn(async move {
-                    r.set_service_status(SERVICES[svc], st).await;
+                    if typed {
+                        if st == ServingStatus::Serving {
+                            r.set_serving::<SvcA>().await;
+                        } else {
+                            r.set_not_serving::<SvcA>().await;
+                        }
+                    } else {
+                        r.set_service_status(SERVICES[svc], st).await;
+                    }
                     let mut w = w.borrow_mut();
                     let seq = w.tick();
                     w.evs.push(HEv::Set { seq, svc, st: wire(st) });
